@@ -350,7 +350,7 @@ def t_layout(l):
     return '(mkLayout %s %s)' % (t_list(mems), t_opt(l['entry'], coq_str))
 
 
-FLAGS = {'twice': False, 'abs': False}      # set by probe_flags(): which proposed fixes the tree under test contains
+FLAGS = {'twice': False, 'abs': False, 'sd': False}      # set by probe_flags(): which proposed fixes the tree under test contains
 
 
 def probe_flags():
@@ -358,6 +358,7 @@ def probe_flags():
     w = {wid: case for wid, _, case, _ in witnesses()}
     FLAGS['twice'] = run_impl(w['section-in-two-memories']) is Diag
     FLAGS['abs'] = not relink_fails(w['relink-absolute-symbol'])
+    FLAGS['sd'] = not sectiondata_stale()
     return dict(FLAGS)
 
 
@@ -865,6 +866,92 @@ def correspondence(ctx, n):
     return cases, outs
 
 
+# ------------------------------------------------------------------ link_final: relocation stand-in + copies
+def run_impl_bump(case):
+    """final link with do_relaxations stubbed and do_relocations replaced by the model's bump_sections
+    (every byte of every section whose name does not start with '_$' becomes (b + 1) % 256); everything else,
+    in particular the order of the SECTIONDATA copy relative to relocation, is the real Linker.link"""
+    import logging
+    from ppci.binutils import linker as lk
+    from ppci.common import CompilerError
+    logging.getLogger('linker').setLevel(logging.CRITICAL)
+
+    class BumpLinker(lk.Linker):
+        def do_relaxations(self):
+            pass
+
+        def do_relocations(self):
+            for s in self.dst.sections:
+                if not s.name.startswith('_$'):
+                    s.data[:] = bytes((b + 1) % 256 for b in s.data)
+    try:
+        objs = [build_object(s) for s in case['objects']]
+        lay = build_layout(case['layout']) if case['layout'] else None
+        extra = dict((n, v) for n, v in case['extra']) if case['extra'] else None
+        if not objs:
+            raise ValueError('no objects')
+        out = BumpLinker(arch()).link(objs, layout=lay, partial_link=False, extra_symbols=extra,
+                                      entry_symbol_name=case['entry'])
+        return OkV(obj_value(out))
+    except CompilerError:
+        return Diag
+    except Exception:   # noqa: BLE001
+        return Internal
+
+
+def final_term(case):
+    b = lambda k: 'true' if FLAGS[k] else 'false'   # noqa: E731
+    return 'link_final (mk_lcfg %s %s) %s bump_sections %s %s %s %s' % (
+        b('twice'), b('abs'), b('sd'), t_list(t_obj(o) for o in case['objects']),
+        t_opt(case['layout'], t_layout), t_opt(case['entry'], coq_str),
+        t_list('(%s, %s)' % (coq_str(n), coq_z(v)) for n, v in case['extra']))
+
+
+def final_correspondence(ctx, n):
+    """Model.Linker.link_final vs the real link with the relocation stand-in; plus the Spec assertion
+    'load copy == final bytes of its source' on the real output whenever the tree contains fixes/C12-3"""
+    rng = random.Random(ctx.seed + 7)
+    wit = base_case([{'sections': [sec('code', [1, 2, 3, 4]), sec('data', [0, 0, 0, 0])],
+                      'symbols': [gsym(0, 'main', 'code', 0)], 'relocations': [], 'entry': None}],
+                    [mem('flash', 0x8000, 0x1000, [['section', 'code'], ['sectiondata', 'data']]),
+                     mem('ram', 0x20000000, 0x1000, [['section', 'data']])])
+    cases = [wit]
+    while len(cases) < n:
+        c = gen_case(rng, 'layout')
+        if rng.random() < 0.7 and c['layout']['memories']:
+            names = [s['name'] for o in c['objects'] for s in o['sections']]
+            used = {a for m in c['layout']['memories'] for k, a in m['inputs'] if k == 'sectiondata'}
+            cand = [x for x in names if x not in used]
+            if cand:
+                rng.choice(c['layout']['memories'])['inputs'].append(['sectiondata', rng.choice(cand)])
+        tighten(c, rng)
+        cases.append(c)
+    outs = [run_impl_bump(c) for c in cases]
+    nsd = 0
+    for c, o in zip(cases, outs):
+        if not isinstance(o, OkV):
+            continue
+        secmap = {x[0]: x for x in o.v[0]}
+        for m in c['layout']['memories']:
+            for kind, a in m['inputs']:
+                if kind == 'sectiondata' and a in secmap and '_$%s_' % a in secmap:
+                    nsd += 1
+                    if FLAGS['sd'] and bytes(secmap[a][3]) != bytes(secmap['_$%s_' % a][3]):
+                        ctx.violation({'fn': 'link', 'key': 'spec:sectiondata copy differs from its relocated source',
+                                       'what': 'load copy _$%s_ differs from the final bytes of %s' % (a, a), 'case': c,
+                                       'how_to_replay': replay_cmd(c)})
+    ctx.cov['stages']['final_correspondence'] = {'links': len(cases), 'linked': sum(isinstance(o, OkV) for o in outs),
+                                                 'sectiondata_copies_checked': nsd}
+    bad = ctx.run_cases('final', ['Model.Linker'], [(final_term(c), o) for c, o in zip(cases, outs)], shard=60)
+    if bad:
+        for i in bad[:5]:
+            ctx.violation({'fn': 'link', 'key': 'correspondence-final', 'case': cases[i],
+                           'what': 'Model.Linker.link_final and the implementation (relocation stand-in) disagree',
+                           'how_to_replay': replay_cmd(cases[i])})
+        ctx.failed_stages.append(('correspondence', 'Model.Linker.link_final disagrees with the implementation on %d of %d links'
+                                  % (len(bad), len(cases))))
+
+
 def search(ctx):
     """implementation vs the independent Spec oracle only (used when the tie is broken)"""
     probe_flags()
@@ -879,13 +966,14 @@ def search(ctx):
 
 def run(ctx):
     ctx.cov['stages']['fixes_present'] = probe_flags()
-    ok, _ = ctx.build(['Proofs/C12_linker.vo', 'Proofs/C12_errors.vo', 'Proofs/C12_e2e.vo', 'Lib/Val.vo'])
+    ok, _ = ctx.build(['Proofs/C12_linker.vo', 'Proofs/C12_errors.vo', 'Proofs/C12_e2e.vo', 'Proofs/C12_sdata.vo', 'Lib/Val.vo'])
     if ok:
         ctx.check_props('Props/C12.v')
     n = 300 if ctx.quick() else 3000
     cases, outs = [], []
     if ctx.build(['Model/Linker.vo', 'Lib/Val.vo'])[0]:
         cases, outs = correspondence(ctx, n)
+        final_correspondence(ctx, 60 if ctx.quick() else 400)
     else:
         cases = make_cases(ctx, n)
         outs = [run_impl(c) for c in cases]
@@ -941,6 +1029,8 @@ MANIFEST = {
             'the check is green before and after fixes/C12-1 and C12-2) and whose Spec is asserted independently on the real output '
             'by a Python oracle. Relocation application and relaxation are C11/C13. The cause of "Undefined references" is stated '
             'as "an undefined global symbol with an input name remains", not reduced to "referenced and defined nowhere" (the converse, '
-            'Ok implies every referenced global is defined, is proved). Known finding left: SECTIONDATA copied before relocation.',
+            'Ok implies every referenced global is defined, is proved). link_final (link, then an arbitrary relocation function, then update_section_copies of fixes/C12-3) is compared with the '
+            'real Linker.link under a relocation stand-in (60/400 links); c12_sectiondata_relocated: with that fix every SECTIONDATA '
+            'load copy equals the final bytes of its source; c12_sectiondata_stale_refuted for the code as found.',
     'technique': 'Coq proof over hand model with fix switches + differential correspondence + independent oracle',
 }
